@@ -11,3 +11,5 @@ import Golem.Props.C06
 import Golem.Props.C07
 import Golem.Props.C09
 import Golem.Props.C12
+import Golem.Props.C14
+import Golem.Props.C15
